@@ -713,7 +713,8 @@ func (p *Parser) OrCondition() (interface{}, error) {
 	}
 
 	for p.match(OR) {
-		ac := SearchCondition{LHS: ret.(Predicate)}
+		// the left operand may be a predicate or an AND term (p AND q OR r)
+		ac := SearchCondition{LHS: ret}
 		ac.RHS, err = p.OrCondition()
 		if err != nil {
 			return nil, err
@@ -733,7 +734,12 @@ func (p *Parser) AndCondition() (interface{}, error) {
 	}
 
 	for p.match(AND) {
-		ac := BooleanTerm{LHS: ret.(Predicate)}
+		lhs, isPredicate := ret.(Predicate)
+		if !isPredicate {
+			// e.g. `col AND ...`: the operand of AND must be a comparison
+			return nil, syntaxErr(p.Prev())
+		}
+		ac := BooleanTerm{LHS: lhs}
 		ac.RHS, err = p.AndCondition()
 		if err != nil {
 			return nil, err
